@@ -661,6 +661,13 @@ func init() {
 		}
 		return mkStr("false")
 	})
+	reg("strconv.AppendQuote", func(in *Interp, fr *frame, a []Value) Value {
+		dst := a[0].([]Value)
+		return append(dst, bytesToValues(mkStr(strconv.Quote(strArg(a[1]).mustConcrete())).bytes())...)
+	})
+	reg("strconv.QuoteToASCII", func(in *Interp, fr *frame, a []Value) Value {
+		return mkStr(strconv.QuoteToASCII(strArg(a[0]).mustConcrete()))
+	})
 	reg("strconv.Quote", func(in *Interp, fr *frame, a []Value) Value { return mkStr(strconv.Quote(strArg(a[0]).mustConcrete())) })
 	reg("strconv.Atoi", func(in *Interp, fr *frame, a []Value) Value { return in.atoi(fr, strArg(a[0])) })
 
